@@ -83,3 +83,12 @@ _stub("C18", "Decides structural clauses of C18: each master's UFO edge is built
              "positions filtered on the same tag, default comes from the axis; validation rejects bitmap / OT-SVG multi-master configs "
              "and a missing default master. Does NOT decide interpolation, gvar/HVAR/VarStore content or variable clip boxes (ufo2ft).",
       "interpolation and all variation data (ufo2ft/fontTools.varLib)")
+
+_stub("C08", "Decides structural clauses of C08 with an order-taint analysis over every module on the font path: set-like values and "
+             "directory listings may be consumed only by order-insensitive consumers (sorted, set algebra, membership, len/min/max/"
+             "any/all, util.only) or by loops whose bodies commute; every other consumption is a finding unless it is in a reviewed "
+             "exception table keyed by function and construct. Also: no clock/random/pid/id()/hash()/environment reads (with a "
+             "positive fixture), source paths and build locations flow only to open/parse, sort keys and messages, the first-seen "
+             "disambiguation of intermediate names is fed from the sorted source list, and the hash-ordered parts file is never read "
+             "by the font writer. Does NOT decide ninja's scheduler, fontTools' SOURCE_DATE_EPOCH handling or external tools.",
+      "ninja scheduling; fontTools timestamps; picosvg/resvg/pngquant determinism; sort ties under non-injective keys")
